@@ -110,15 +110,25 @@ def run_C07(ctx):
 # ------------------------------------------------------------------ C11 (validity exact + closed)
 def run_C11(ctx):
     ctx.build("opt")
-    consts = session_consts(OpSet='{"validity"}', ValidOnly="FALSE", LeafSet=leafset(2),
-                            MaxDepth="2", Classes=ALL_CLASSES if not ctx.quick() else
-                            '{"ListOffset","List","Regular","Indexed","IndexedOption","ByteMasked","BitMasked","Unmasked"}',
-                            MaxLen="2" if not ctx.quick() else "2")
+    # (1) exactness: every layout, valid or not (constructors unguarded), against the documented rules
+    consts = session_consts(OpSet='{"validity"}', ValidOnly="FALSE", LeafSet=leafset(2), MaxDepth="2", Classes=ALL_CLASSES)
     ctx.tlc_phase("exactness", "Session", consts, invariants=["Refines"],
                   require_actions=["Validity", "WrapListOffset", "WrapList", "WrapIndexed", "WrapIndexedOption",
                                    "WrapByteMasked", "WrapBitMasked"],
-                  max_cases=400000 if ctx.quick() else None)
-    return ctx.finish()
+                  max_cases=300000 if ctx.quick() else None)
+    # (2) closure: results of operations on valid layouts are valid again
+    q = ctx.quick()
+    consts = session_consts(OpSet='{"concat","samevalue","aux"}', LeafSet=MIXED_LEAVES, MaxDepth="1", Classes=ALL_CLASSES)
+    ctx.tlc_phase("closure-binary", "Session", consts, invariants=["Closed"], judge_fn=("replay", "judge_closure"),
+                  require_actions=["ConcatOp", "SameValueOp"], max_cases=400000 if q else None)
+    consts = session_consts(OpSet='{"slice","num","flatten","localindex","pad","comb","reduce","samevalue"}',
+                            LeafSet=leafset(2), Classes=ALL_CLASSES, Axes="{-2,-1,0,1,2}", Targets="{0,2}", CombNs="{1,2}",
+                            SliceTuples="RandomSubset(%d, %s)" % (6 if q else 30, slice_tuples(0)),
+                            ReduceArgs="RandomSubset(%d, AllReduceArgs)" % (2 if q else 8))
+    ctx.tlc_phase("closure-unary", "Session", consts, invariants=["Closed"], judge_fn=("replay", "judge_closure"),
+                  seed_tlc=True, require_actions=["SliceOp", "PadOp", "CombOp", "ReduceOp", "FlattenOp"],
+                  max_cases=300000 if q else None)
+    return ctx.finish(assumptions=["closure is additionally checked on every case of every other property's check"])
 
 
 RUNNERS.update({"C09": run_C09, "C07": run_C07, "C11": run_C11})
@@ -142,3 +152,22 @@ def run_C03(ctx):
 
 
 RUNNERS["C03"] = run_C03
+
+
+# ------------------------------------------------------------------ C08 (concatenate / merge / simplify / astype)
+MIXED_LEAVES = ('{Numpy("int64", [k \\in 1..n |-> k]) : n \\in 0..2} \\cup '
+                '{Numpy("float64", <<1,2>>), Numpy("bool", <<1,0>>), Numpy("int32", <<3>>), Numpy("uint8", <<7,8>>), EmptyL}')
+
+
+def run_C08(ctx):
+    ctx.build("opt")
+    consts = session_consts(OpSet='{"concat","samevalue","aux"}', LeafSet=MIXED_LEAVES, MaxDepth="1" if ctx.quick() else "2",
+                            MaxLen="2", Classes=ALL_CLASSES)
+    ctx.tlc_phase("concat-pairs", "Session", consts, invariants=["Refines", "Closed"],
+                  require_actions=["ConcatOp", "SameValueOp", "StoreAux"],
+                  max_cases=None if ctx.quick() else 3000000)
+    return ctx.finish(assumptions=["ak.concatenate(axis=0) is replayed as its C++ call sequence mergeable/mergemany/merge_as_union/simplify_uniontype",
+                                   "leaf values are small integers representable in every dtype used"])
+
+
+RUNNERS["C08"] = run_C08
